@@ -344,7 +344,7 @@ static std::string leadInChild(oc::ProductGraph &pg, PS *from, const std::functi
         std::set_terminate([] { _exit(71); });
         struct rlimit rl{512ul << 20, 512ul << 20};
         setrlimit(RLIMIT_AS, &rl);
-        alarm(5);
+        alarm(20);   // a runaway computeLead hits the address-space limit within a second; this is the backstop
         std::string out;
         try
         {
